@@ -55,3 +55,23 @@ Lemma client_formula_ok :
   src_addLogical = "{ return logical + count<<suffixBits }" /\
   client_first_logical = ["firstLogical := addLogical(logical, -count+1, suffixBits)"].
 Proof. split; reflexivity. Qed.
+
+(* ---- joins, moves, suffix width (model/C05_Join.v): the functions the labels JCheckLeader / JCheckFollower / JStart stand for ---- *)
+Lemma skel_am_GetMaxLocalTSO_ok : skel_am_GetMaxLocalTSO =
+  [Call "GetClusterDCLocations"; ForE [Call "getAllocatorGroup"; IfE "!ok" [Call "delete"; Cont] []; Call "GetAllocatorLeader"; IfE "!isLocal || localAllocator.GetAllocatorLeader().GetMemberId() == 0" [Call "delete"] []]; Assign "maxTSO" ":= &pdpb.Timestamp{}"; Call "GetAllocator"; IfE "err != nil" [Ret] []; IfE "len(clusterDCLocations) > 0" [Call "SyncMaxTS"; IfE "err != nil" [Ret] []] []; Call "getCurrentTSO"; Call "CompareTimestamp"; IfE "err == nil && tsoutil.CompareTimestamp(currentGlobalTSO, maxTSO) > 0" [Assign "maxTSO" "= currentGlobalTSO"] []; Ret].
+Proof. reflexivity. Qed.
+Lemma skel_am_campaignAllocatorLeader_ok : skel_am_campaignAllocatorLeader =
+  [Call "CampaignAllocatorLeader"; IfE "err != nil" [Ret] []; Call "Initialize"; IfE "err != nil" [Ret] []; IfE "dcLocationInfo.GetMaxTs().GetPhysical() != 0" [Call "WriteTSO"; IfE "err != nil" [Ret] []] []; Call "compareAndSetMaxSuffix"; Call "EnableAllocatorLeader"; ForE [SwitchE [[IfE "!allocator.IsAllocatorLeader()" [Ret] []]; [Ret]]]].
+Proof. reflexivity. Qed.
+Lemma skel_am_ClusterDCLocationChecker_ok : skel_am_ClusterDCLocationChecker =
+  [IfE "am.member.GetLeader() == nil" [Ret] []; Call "GetClusterDCLocationsFromEtcd"; IfE "err != nil" [Ret] []; Lock "am.mu"; ForE [IfE "!ok" [Call "delete"] []]; Call "IsLeader"; IfE "am.member.IsLeader()" [ForE [IfE "info.Suffix > 0" [Cont] []; Call "getOrCreateLocalTSOSuffix"; IfE "err != nil" [Cont] []; IfE "suffix > am.mu.maxSuffix" [Assign "am.mu.maxSuffix" "= suffix"] []; Assign "am.mu.clusterDCLocations[dcLocation].Suffix" "= suffix"]] [Call "getMaxLocalTSOSuffix"; Assign "maxSuffix" ":= am.getMaxLocalTSOSuffix()"; IfE "err != nil" [ForE [Call "delete"]] [IfE "maxSuffix > am.mu.maxSuffix" [Assign "am.mu.maxSuffix" "= maxSuffix"] []]]; Unlock "am.mu"].
+Proof. reflexivity. Qed.
+Lemma skel_am_compareAndSetMaxSuffix_ok : skel_am_compareAndSetMaxSuffix =
+  [Lock "am.mu"; DeferUnlock "am.mu"; IfE "suffix > am.mu.maxSuffix" [Assign "am.mu.maxSuffix" "= suffix"] []].
+Proof. reflexivity. Qed.
+Lemma skel_am_GetSuffixBits_ok : skel_am_GetSuffixBits =
+  [RLock "am.mu"; DeferRUnlock "am.mu"; Ret].
+Proof. reflexivity. Qed.
+Lemma skel_handler_GetDCLocationInfo_ok : skel_handler_GetDCLocationInfo =
+  [IfE "err != nil" [Ret] []; Call "IsLeader"; IfE "!s.member.IsLeader()" [Ret] []; Call "GetDCLocationInfo"; IfE "!ok" [Call "ClusterDCLocationChecker"; Ret] []; Call "GetMaxLocalTSO"; Assign "resp.MaxTs" "= am.GetMaxLocalTSO(ctx)"; IfE "err != nil" [Ret] []; Ret].
+Proof. reflexivity. Qed.
